@@ -30,6 +30,7 @@ Section FeInd.
   Hypothesis HCast : forall t e, P e -> P (ECast t e).
   Hypothesis HStrOf : forall e, P e -> P (EStrOf e).
   Hypothesis HConcat : forall a b, P a -> P b -> P (EConcat a b).
+  Hypothesis HInterval : forall a b, P a -> P b -> P (EInterval a b).
 
   Fixpoint fe_ind' (e : fe) : P e :=
     let go_l := fix go (l : list fe) : Forall P l :=
@@ -60,6 +61,7 @@ Section FeInd.
     | ECast t e => HCast t e (fe_ind' e)
     | EStrOf e => HStrOf e (fe_ind' e)
     | EConcat a b => HConcat a b (fe_ind' a) (fe_ind' b)
+    | EInterval a b => HInterval a b (fe_ind' a) (fe_ind' b)
     end.
 End FeInd.
 
@@ -388,4 +390,10 @@ Proof.
     destruct (elab g e2) as [[tb xb]|] eqn:Eb; [|discriminate Heq]. destruct tb; try discriminate Heq.
     inversion Heq; subst. pose proof (IHe1 _ _ _ Ea) as Ha. pose proof (IHe2 _ _ _ Eb) as Hb.
     cbn [ir_type map all_some]. rewrite Ha, Hb. reflexivity.
+  - (* EInterval *)
+    destruct (elab g e1) as [[ta xa]|] eqn:Ea; [|discriminate Heq]. destruct (elab g e2) as [[tb xb]|] eqn:Eb; [|discriminate Heq].
+    destruct (ty_eqb ta tb) eqn:Eab; [|discriminate Heq]. inversion Heq; subst.
+    pose proof (IHe1 _ _ _ Ea) as Ha. pose proof (IHe2 _ _ _ Eb) as Hb.
+    cbn [ir_type map all_some option_map]. rewrite Ha, Hb. cbn [option_map all_some sig_ok].
+    rewrite Eab. cbn [ty_eqb andb]. rewrite ty_eqb_refl. reflexivity.
 Qed.
